@@ -21,7 +21,8 @@ RULE = ('Hypothesis draws operand orders (1..4), mode sizes (1..3, size 1 over-w
         'block in the last row/column, or a factorization with a factor 1; distinct = distinct canonical JSON.')
 ASSUMPTIONS = [
     'oracle: numpy.tensordot/reshape on values obtained with vt/dense.py (independent of TT.full)',
-    'tensordot: the boundary ranks that the routine requires to be 1 are 1 (documented ValueError otherwise); contracted '
+    'tensordot: the boundary ranks that the routine requires to be 1 are 1 (documented ValueError otherwise), the other two '
+    'may be open except in a complete contraction over both operands; contracted '
     'dimensions of the two operands agree (constructed)',
     'squeeze: at least one mode is not (1,1) and boundary ranks are 1',
     'tt2qtt: every mode has equally many row and column factors whose products are the mode sizes; threshold 0',
@@ -66,6 +67,18 @@ def tensordot_case(draw):
             rows[j] = draw(gen.SMALL_DIM)
             cols[j] = draw(gen.SMALL_DIM)
     b = draw(gen.tt_spec(rows=rows, cols=cols, kind='given', max_rank=3))
+    # the boundary ranks the routine does not require to be 1 may be open (e.g. the u / v factors of TT.svd)
+    if draw(st.sampled_from([False, False, True])) and not (k == da and k == db):
+        # (for a complete contraction over both operands the orientation of the resulting 1x1-mode core with two open
+        # boundary ranks is not documented; that case keeps boundary ranks 1)
+        if mode.startswith('last'):
+            a['ranks'][0] = draw(st.sampled_from([2, 3]))
+        else:
+            a['ranks'][-1] = draw(st.sampled_from([2, 3]))
+        if mode.endswith('first'):
+            b['ranks'][-1] = draw(st.sampled_from([1, 2]))
+        else:
+            b['ranks'][0] = draw(st.sampled_from([1, 2]))
     return {'a': a, 'b': b, 'mode': mode, 'num_axes': k, 'overwrite': draw(st.booleans())}
 
 
@@ -73,32 +86,71 @@ def body_tensordot(case):
     a = build.make_tt(case['a'])
     b = build.make_tt(case['b'])
     da, db, k, mode = a.order, b.order, case['num_axes'], case['mode']
-    A = _mode_pairs(dense.contract(a.cores), da)
-    B = _mode_pairs(dense.contract(b.cores), db)
+    # dense values with the boundary ranks kept as leading / trailing axes: (r0, m1, n1, ..., md, nd, rd)
+    Afull = dense.contract(a.cores, keep_bounds=True)
+    Bfull = dense.contract(b.cores, keep_bounds=True)
+    A = np.transpose(Afull, [0] + [1 + j for i in range(da) for j in (i, da + i)] + [2 * da + 1])
+    B = np.transpose(Bfull, [0] + [1 + j for i in range(db) for j in (i, db + i)] + [2 * db + 1])
     scale = dense.scale_of(a.cores) * dense.scale_of(b.cores)
     sel_a = list(range(da - k, da)) if mode.startswith('last') else list(range(k))
     sel_b = list(range(db - k, db)) if mode.endswith('last') else list(range(k))
     rem_a = [i for i in range(da) if i not in sel_a]
     rem_b = [i for i in range(db) if i not in sel_b]
-    ax_a = [x for i in sel_a for x in (2 * i, 2 * i + 1)]
-    ax_b = [x for i in sel_b for x in (2 * i, 2 * i + 1)]
-    R = np.tensordot(A, B, axes=(ax_a, ax_b))      # remaining modes of self (in order), then of other (in order)
-    # documented order of the result
+    # the boundary rank next to the contracted block is 1 on both operands (required by the routine): drop it, keep the other
+    if mode.startswith('last'):
+        A = A[..., 0]                      # axes: r0_a, modes...
+        a_bound = 'left'
+    else:
+        A = A[0]                           # axes: modes..., rd_a
+        a_bound = 'right'
+    if mode.endswith('first'):
+        B = B[0]                           # axes: modes..., rd_b
+        b_bound = 'right'
+    else:
+        B = B[..., 0]                      # axes: r0_b, modes...
+        b_bound = 'left'
+    off_a = 1 if a_bound == 'left' else 0
+    off_b = 1 if b_bound == 'left' else 0
+    ax_a = [off_a + x for i in sel_a for x in (2 * i, 2 * i + 1)]
+    ax_b = [off_b + x for i in sel_b for x in (2 * i, 2 * i + 1)]
+    R = np.tensordot(A, B, axes=(ax_a, ax_b))
+    # axes of R: [ra?] rem_a modes [ra?]  then  [rb?] rem_b modes [rb?]
+    na = 2 * len(rem_a) + 1
+    pos = {}
+    cur = 0
+    if a_bound == 'left':
+        pos['ra'] = cur
+        cur += 1
+    for i in rem_a:
+        pos[('a', i)] = cur
+        cur += 2
+    if a_bound == 'right':
+        pos['ra'] = cur
+        cur += 1
+    if b_bound == 'left':
+        pos['rb'] = cur
+        cur += 1
+    for i in rem_b:
+        pos[('b', i)] = cur
+        cur += 2
+    if b_bound == 'right':
+        pos['rb'] = cur
+        cur += 1
+    # documented order of the result and the resulting open boundary ranks
     if mode == 'last-first':
         order = [('a', i) for i in rem_a] + [('b', i) for i in rem_b]
+        left, right = 'ra', 'rb'
     elif mode == 'last-last':
         order = [('a', i) for i in rem_a] + [('b', i) for i in rem_b[::-1]]
+        left, right = 'ra', 'rb'
     elif mode == 'first-last':
         order = [('b', i) for i in rem_b] + [('a', i) for i in rem_a]
+        left, right = 'rb', 'ra'
     else:
         order = [('b', i) for i in rem_b[::-1]] + [('a', i) for i in rem_a]
-    pos = {}
-    for n, i in enumerate(rem_a):
-        pos[('a', i)] = n
-    for n, i in enumerate(rem_b):
-        pos[('b', i)] = len(rem_a) + n
-    perm = [x for key in order for x in (2 * pos[key], 2 * pos[key] + 1)]
-    R = np.transpose(R, perm) if perm else R
+        left, right = 'rb', 'ra'
+    perm = [pos[left]] + [x for key in order for x in (pos[key], pos[key] + 1)] + [pos[right]]
+    R = np.transpose(R, perm)
     dr = len(order)
 
     t = a.tensordot(b, k, mode=mode, overwrite=case['overwrite'])
@@ -107,11 +159,14 @@ def body_tensordot(case):
         require(t is a, 'tensordot_overwrite', 'overwrite=True did not return self')
     lab = gen.spec_labels(case['a']) | gen.spec_labels(case['b'], 'b:')
     lab.add(mode)
+    if R.shape[0] != 1 or R.shape[-1] != 1:
+        lab.add('open_bounds')
+    got = dense.contract(t.cores, keep_bounds=True)
     if dr == 0:
         lab.add('complete_both')
         require(t.order == 1 and t.row_dims == [1] and t.col_dims == [1], 'tensordot_dims',
                 'complete contraction should give a single (1,1) core, got rows %s cols %s' % (t.row_dims, t.col_dims))
-        close(dense.contract(t.cores).reshape(()), R.reshape(()), TOL, scale, 'tensordot_value', 'complete contraction')
+        close(got.reshape(R.shape), R, TOL, scale, 'tensordot_value', 'complete contraction')
         return lab
     if k == da:
         lab.add('complete_self')
@@ -119,8 +174,8 @@ def body_tensordot(case):
         lab.add('complete_other')
     else:
         lab.add('partial')
-    got = dense.contract(t.cores)
-    want = _rows_cols(R, dr)
+    # (r_left, m1, n1, ..., r_right) -> (r_left, rows..., cols..., r_right)
+    want = np.transpose(R, [0] + [1 + 2 * i for i in range(dr)] + [2 + 2 * i for i in range(dr)] + [2 * dr + 1])
     require(list(got.shape) == list(want.shape), 'tensordot_dims',
             'mode order/dims: got %s, documented order gives %s' % (got.shape, want.shape))
     close(got, want, TOL, scale, 'tensordot_value', 'tensordot(%s, %d)' % (mode, k))
@@ -456,7 +511,7 @@ def nt(labels):
 
 SUBCHECKS = [
     Sub('tensordot', tensordot_case(), body_tensordot, nt, quick=1200, thorough=12000,
-        classes=MODES + ['partial', 'complete_self', 'complete_other', 'complete_both', 'complex', 'size1mode']),
+        classes=MODES + ['partial', 'complete_self', 'complete_other', 'complete_both', 'complex', 'size1mode', 'open_bounds']),
     Sub('rank_ops', rank_case(), body_rank, nt, quick=800, thorough=8000,
         classes=['rt_last', 'rt_first', 'concat_list', 'concat_tt', 'open_bounds', 'complex']),
     Sub('diag', diag_case(), body_diag, nt, quick=800, thorough=8000,
